@@ -8,6 +8,8 @@ Open Scope Z_scope.
 Theorem search_exact : forall frs xts h, FragsOK frs -> (In h (search frs xts) <-> In h (scan_xt frs xts)).
 Proof. exact GraphP.search_exact. Qed.
 Print Assumptions search_exact.
+Example search_exact_hyps_sat : FragsOK d_forest /\ search d_forest [100; 102] <> [].
+Proof. split; [exact d_forest_ok|discriminate]. Qed.
 
 (* 2. reference search: with the XPath pre-filter it returns exactly what evaluating every link-storing relation
       of every object returns — same triples, same order — provided relations keep their targets in the element's
@@ -15,6 +17,16 @@ Print Assumptions search_exact.
 Theorem find_references_sound_complete : forall xs y, Forall StoredShallow xs -> find_references xs y = brute_force xs y.
 Proof. exact find_references_exact. Qed.
 Print Assumptions find_references_sound_complete.
+(* hypothesis satisfiable: three objects, targets stored in own attributes (1), in a child's attributes (2), none (3);
+   the search for 42 has two hits, one of them at position 1 of a relation *)
+Definition ex_qs : list qobj :=
+  [mkQ 1 [42] [] [(7, [42])]; mkQ 2 [] [42; 43] [(8, [43; 42]); (9, [])]; mkQ 3 [5] [] []].
+Example find_references_sound_complete_hyps_sat :
+  Forall StoredShallow ex_qs /\ find_references ex_qs 42 = [(1, 7, 0); (2, 8, 1)].
+Proof.
+  split; [|reflexivity].
+  repeat (apply Forall_cons; [intros r u Hr Hu; cbn in Hr, Hu |- *; intuition (subst; cbn in *; intuition)|]); apply Forall_nil.
+Qed.
 Theorem reported_iff_relation_contains : forall y x h r i, In (h, r, i) (hits y x) <->
   h = q_h x /\ exists ts, In (r, ts) (q_rels x) /\ index_of y ts 0 = Some i.
 Proof. exact hits_spec. Qed.
@@ -47,6 +59,7 @@ Proof. exact filters_partition_refuted. Qed.
 Print Assumptions filter_partition_old_refuted.
 
 (* 5. single-result lookups *)
+(* by definition of single (a three-way case split on the list) *)
 Theorem single_lookup : forall l x, single l = Some x <-> l = [x].
 Proof. exact single_spec. Qed.
 Print Assumptions single_lookup.
